@@ -248,11 +248,11 @@ def gadget_cfgs(tier):
 def c13(c):
     build("ark")
     c.mc(gadget_cfgs(c.tier) + [("LazyVar.tla", "cfg/LazyVar.cfg")])
-    plan, n, st = gen_lazy_plan()
+    plan, n, st = gen_lazy_plan("cfg/LazyPlan5.cfg" if c.tier == "thorough" else "cfg/LazyPlan.cfg")
     c.states += st
     c.transitions += st
-    c.notes.append("LazyVar: TLC enumerated %d accessor-call sequences (length <= 5) from both initial states; all replayed into the real gadget" % n)
-    c.exhaustive_parts.append("every sequence of <= 5 forcing calls x {from encoding, from element} x {valid, identity, invalid, random}")
+    c.notes.append("LazyVar: TLC enumerated %d call sequences over {compress, cs, value, double_in_place, negate, +=, -=} from both initial states; all replayed into the real gadget" % n)
+    c.exhaustive_parts.append("every sequence of <= 4 (thorough: 5) accessor / in-place-operation calls x {from encoding, from element}; pure accessor sequences also on identity / invalid / random inputs")
     c.trace("ark", "lazy", 0, plan, **RT)
     c.trace("ark", "gadgets", scale(c.tier, 40, 1500), **RT)
     return c.finish(rule="distinct (gadget, allocation mode) combinations synthesised honestly plus distinct forcing sequences")
